@@ -312,7 +312,8 @@ impl Property for C14 {
             // one root cause whatever instruction is hit first: keyed by the set of targets
             // 3.10 and 3.11 share one root cause (pre-3.10 lnotab written for every target): which of
             // the two shows an uncovered instruction depends on the program
-            let set = if line_vers.iter().all(|v| v == "3.10" || v == "3.11") { "3.10/3.11".to_string() } else { line_vers.join(",") };
+            // beyond the 3.10/3.11 family a line-table problem is specific to its program
+            let set = if line_vers.iter().all(|v| v == "3.10" || v == "3.11") { "3.10/3.11".to_string() } else { format!("{} [program {:08x}]", line_vers.join(","), vkit::util::hash_str(&src) as u32) };
             return Outcome::fail(pin(format!("instruction-without-valid-line on target(s) {set}")), json!({"erg": vkit::util::truncate(&src, 2500), "detail": line_detail}));
         }
         let mut o = Outcome::pass(jumps >= 1 && calls >= 1);
